@@ -46,11 +46,15 @@ vars == <<inp, pc, outcome, softErrs, opened, cur, count, dynpos>>
 Init == /\ inp \in NearBase /\ pc = "stack" /\ outcome = "running" /\ softErrs = {} /\ opened = {} /\ cur = 0 /\ count = 0 /\ dynpos = 0
 Go(next) == pc' = next /\ UNCHANGED <<inp, outcome, opened, cur, count, dynpos>>
 (* which step of the linker-data stream yields an error value, as a function of the input (the steps below follow it) *)
-PhdrFails(i)  == i.phdr # "true" \/ i.phnum \in {"larger", "huge"}       \* an unset (zero) count is completed from /proc/<pid>/auxv
-BaseFails(i)  == i.vaddr = "gt_base"
-DynFails(i)   == i.dyn = "unterminated"
-WalkFails(i)  == i.list = "dangling"
-NamesFail(i)  == i.list = "name_nonutf8"
+(* an unset (zero) AT_PHNUM makes the writer complete the auxiliary values from /proc/<pid>/auxv: the harness then leaves AT_PHDR
+   unset too, and the linker data that is followed is the real program's, whatever the synthetic chain looks like *)
+Real(i)       == i.phnum = "zero"
+EffList(i)    == IF Real(i) THEN "acyclic" ELSE i.list
+PhdrFails(i)  == ~Real(i) /\ (i.phdr # "true" \/ i.phnum \in {"larger", "huge"})
+BaseFails(i)  == ~Real(i) /\ i.vaddr = "gt_base"
+DynFails(i)   == ~Real(i) /\ i.dyn = "unterminated"
+WalkFails(i)  == EffList(i) = "dangling"
+NamesFail(i)  == EffList(i) = "name_nonutf8"
 DsoFails(i)   == PhdrFails(i) \/ BaseFails(i) \/ DynFails(i) \/ WalkFails(i) \/ NamesFail(i)
 (* get_stack_info on the crash stack pointer: Ok(region) or Err(NoStackPointerMapping); never anything else *)
 StackStep == pc = "stack" /\ Go("ipwindow") /\ UNCHANGED softErrs
@@ -64,7 +68,7 @@ BaseStep  == /\ pc = "base"
              /\ IF ~BaseFails(inp) THEN Go("dynscan") /\ UNCHANGED softErrs
                 ELSE Go("modules") /\ softErrs' = softErrs \cup {"WriteDSODebugStreamFailed"}
 DynScan   == /\ pc = "dynscan"
-             /\ IF ~DynFails(inp) THEN pc' = "walk" /\ cur' = (IF inp.list = "empty" THEN 0 ELSE 1) /\ count' = 0 /\ UNCHANGED <<inp, outcome, opened, softErrs, dynpos>>
+             /\ IF ~DynFails(inp) THEN pc' = "walk" /\ cur' = (IF EffList(inp) = "empty" THEN 0 ELSE 1) /\ count' = 0 /\ UNCHANGED <<inp, outcome, opened, softErrs, dynpos>>
                 ELSE Go("modules") /\ softErrs' = softErrs \cup {"WriteDSODebugStreamFailed"}
 (* while curr_map != 0 { read link_map at curr_map; curr_map = l_next } *)
 Walk      == /\ pc = "walk"
@@ -72,7 +76,7 @@ Walk      == /\ pc = "walk"
                   THEN pc' = "names" /\ UNCHANGED <<cur, count, softErrs>>
                   ELSE IF cur = NNodes + 1
                     THEN pc' = "modules" /\ softErrs' = softErrs \cup {"WriteDSODebugStreamFailed"} /\ UNCHANGED <<cur, count>>
-                    ELSE pc' = "walk" /\ cur' = NextOf(inp.list)[cur] /\ count' = (IF BoundedWalk THEN count + 1 ELSE count) /\ UNCHANGED softErrs
+                    ELSE pc' = "walk" /\ cur' = NextOf(EffList(inp))[cur] /\ count' = (IF BoundedWalk THEN count + 1 ELSE count) /\ UNCHANGED softErrs
              /\ UNCHANGED <<inp, outcome, opened, dynpos>>
 Names     == /\ pc = "names"
              /\ IF NamesFail(inp) THEN softErrs' = softErrs \cup {"WriteDSODebugStreamFailed"} ELSE UNCHANGED softErrs
